@@ -161,6 +161,15 @@ fn cells() -> Vec<Cell> {
         v.push(Cell { name: format!("recv/{}<-UnknownFrame", rname), m1: req.clone(), reply: RefMsg::Unknown { addr: 3, ty: 0x42, data: vec![0x13] }, send_paced: false, recv_paced: false });
         v.push(Cell { name: format!("recv/{}<-DataFrame", rname), m1: req.clone(), reply: RefMsg::Data { offset: 0, data: vec![0x13; 16] }, send_paced: false, recv_paced: false });
     }
+    // ... and the pause does not depend on WHICH address reports: signs at the ends of the address range and past every byte
+    // boundary, asked at their own address and answering a request made to another
+    for a in [0x0000u16, 0x00FF, 0x0100, 0x0101, 0x7FFF, 0x8000, 0xFF00, 0xFFFF] {
+        for s in [S_LOAD_PROG, S_SHOW_PROG] {
+            v.push(Cell { name: format!("recv/Query@{:04X}<-Report:{}@same", a, st_name(s)), m1: RefMsg::Query(a), reply: RefMsg::Report(a, s), send_paced: false, recv_paced: true });
+            v.push(Cell { name: format!("recv/Hello@0003<-Report:{}@{:04X}", st_name(s), a), m1: RefMsg::Hello(3), reply: RefMsg::Report(a, s), send_paced: false, recv_paced: true });
+        }
+        v.push(Cell { name: format!("recv/Query@{:04X}<-Report:PageLoaded@same", a), m1: RefMsg::Query(a), reply: RefMsg::Report(a, S_LOADED), send_paced: false, recv_paced: false });
+    }
     // replies that merely LOOK like an in-progress report (state byte 0x13 / 0x11 in a frame that is not a state report:
     // more than one data byte, another message type, no data at all) are not in-progress reports
     for (i, (ty, data)) in [(4u8, vec![0x13u8, 0x00]), (4, vec![0x11, 0x00]), (4, vec![0x13, 0x13, 0x13]), (4, vec![]), (5, vec![0x13]), (2, vec![0x11]), (0x14, vec![0x13]), (4, vec![0x00, 0x13])].into_iter().enumerate() {
@@ -635,7 +644,7 @@ pub fn run(ctx: &Ctx) -> Outcome {
     let n_send_unpaced = all.iter().filter(|c| !c.send_paced).count() as u64;
     let floors = vec![
         floor("paced send trials (data chunks of 4 lengths; 14 further (offset, length) pairs at the ends of the offset range and past 0xFFFF; 6 chunks whose offset and bytes equal state codes, a message type, the pause lengths)", report.get("paced_send_trials") >= 24 * trials as u64, report.get("paced_send_trials")),
-        floor("paced receive trials (8 request kinds x 2 in-progress states x own/foreign)", report.get("paced_recv_trials") >= 32 * trials as u64, report.get("paced_recv_trials")),
+        floor("paced receive trials (8 request kinds x 2 in-progress states x own/foreign; 8 addresses from 0000 to FFFF x 2 states x asked / not asked)", report.get("paced_recv_trials") >= 64 * trials as u64, report.get("paced_recv_trials")),
         floor("data chunk followed by a failing flush (3 error kinds)", report.get("flush_fault_trials") >= 9, report.get("flush_fault_trials")),
         floor("sessions: paced chunks, paced replies and unpaced pairs all observed mid-session", report.get("session_paced_chunks") >= 50 && report.get("session_paced_replies") >= 20 && report.get("session_pairs_judged") >= 10, format!("{} chunks, {} replies, {} pairs", report.get("session_paced_chunks"), report.get("session_paced_replies"), report.get("session_pairs_judged"))),
         floor("paced exchanges on ports whose write / read blocks for 10, 20, 45 and 120 ms", report.get("stalled_port_trials") >= 8, report.get("stalled_port_trials")),
